@@ -37,6 +37,9 @@ pub struct StarkConfig {
     pub n_verifier_friendly_commitment_layers: Felt,
 }
 
+const MAX_LOG_BLOWUP_FACTOR: Felt = Felt::from_hex_unchecked("0x10");
+const MAX_N_QUERIES: Felt = Felt::from_hex_unchecked("0x30");
+
 impl StarkConfig {
     pub fn security_bits(&self) -> Felt {
         self.n_queries * self.log_n_cosets + Felt::from(self.proof_of_work.n_bits)
@@ -49,6 +52,14 @@ impl StarkConfig {
         num_columns_second: Felt,
     ) -> Result<(), Error> {
         self.proof_of_work.validate()?;
+
+        // The blow-up exponent and the query count are small integers; bounding them also keeps
+        // the security sum below from being reduced modulo the field.
+        ensure!(
+            self.log_n_cosets >= Felt::ONE && self.log_n_cosets <= MAX_LOG_BLOWUP_FACTOR,
+            Error::OutOfBounds
+        );
+        ensure!(self.n_queries >= Felt::ONE && self.n_queries <= MAX_N_QUERIES, Error::OutOfBounds);
 
         ensure!(security_bits <= self.security_bits(), Error::InsufficientSecurity);
 
@@ -91,6 +102,8 @@ pub enum Error {
     DynamicParamsMissing,
     #[error("insufficient number ofsecurity bits")]
     InsufficientSecurity,
+    #[error("blow-up exponent or query count out of bounds")]
+    OutOfBounds,
 }
 
 #[cfg(not(feature = "std"))]
@@ -111,4 +124,6 @@ pub enum Error {
     DynamicParamsMissing,
     #[error("insufficient number ofsecurity bits")]
     InsufficientSecurity,
+    #[error("blow-up exponent or query count out of bounds")]
+    OutOfBounds,
 }
